@@ -134,6 +134,9 @@ pub struct World {
     pub epoch: u64,
     /// Epoch and MPK version at the last successful update.
     pub last_update: (u64, u64),
+    /// Set by an enumeration sweep that found a failing mutant: the explicit events equivalent to
+    /// that single mutant (the runner substitutes them for the sweep event in the trace).
+    pub reduce_to: Option<Vec<Ev>>,
 }
 
 /// Interns a dynamically built counter name (bounded set of names).
@@ -212,6 +215,7 @@ impl World {
             disabled_ids: BTreeSet::new(),
             epoch: 0,
             last_update: (u64::MAX, 0),
+            reduce_to: None,
         })
     }
 
